@@ -90,6 +90,12 @@ type Info struct {
 	FaultKinds  []string // fault kinds this driver can inject (counters named fault.<kind>)
 	// Race is true for drivers that must run in a -race build, one run per process slot.
 	Race bool
+	// InProcessShrink lets the master evaluate shrink candidates in its own
+	// process.  Only for drivers whose runs cannot take the process down or
+	// hang it (C20); everything else is evaluated in child processes, because a
+	// tree under test may be damaged in ways that make even the harness's own
+	// walks (or goyang's accessors called by them) overflow the stack.
+	InProcessShrink bool
 }
 
 var drivers = map[string]Driver{}
